@@ -503,8 +503,15 @@ def tasks(engine):
             t.allowed_field_writes = ('ops_evaluated',)
             out.append(t)
         else:
-            t = Task(fi.key, 'op_override', fi, base_setup(cls), F.ALL_FAMILIES, OverrideSpec(engine, cls))
-            out.append(t)
+            def make(fi=fi, cls=cls):
+                return Task(fi.key, 'op_override', fi, base_setup(cls), F.ALL_FAMILIES, OverrideSpec(engine, cls))
+            if cls == 'BinOp':
+                out.extend(split_cases(make, fi.key, ['+', '-', '*', '**', '/', 'and', 'or'],
+                                       lambda ex, ctx: fld(ex, ctx, 'op')))
+            elif cls == 'ShortOp':
+                out.extend(split_cases(make, fi.key, ['+=', '-=', '*=', '/='], lambda ex, ctx: fld(ex, ctx, 'op')))
+            else:
+                out.append(make())
     out.append(closure_task(engine))
     return out
 
